@@ -101,13 +101,21 @@ class Gen:
                 ops.append(self.gen_delete(groups, rng.randrange(len(groups)), alphabet, deleted))
                 ops.append({"op": "gc"})
         al = sorted(alphabet)
+        # read bounds around the delete bounds (between the last kept sample and the cut)
+        hot = set()
+        for o in ops:
+            if o["op"] == "delete":
+                for t in (o["a"], o["b"]):
+                    hot.update(x for x in (t, t - 1, t + 1, t - 5, t + 5, t - 12) if 0 <= x <= MAXTS)
+        hot = sorted(hot) or al
         ranges = [[0, MAXTS]]
-        for _ in range(rng.randrange(4, 8)):
-            a = rng.choice(al)
-            b = rng.choice(al)
+        for _ in range(rng.randrange(5, 10)):
+            x = rng.random()
+            a = rng.choice(hot if x < 0.5 else al)
+            b = rng.choice(hot if 0.25 < x < 0.75 else al)
             if a > b:
                 a, b = b, a
-            if rng.random() < 0.08:
+            if rng.random() < 0.06:
                 a, b = b, a        # inverted bounds
             ranges.append([a, b])
         return {"cap": cap, "thr": thr, "channels": chans, "ops": ops, "ranges": ranges}
@@ -409,7 +417,7 @@ RULE = ("scripts of 6-18 operations over 1-2 index groups (index channel + 1-3 d
         "writes over existing index stamps, writes into deleted regions), DeleteTimeRange over data-only / whole-group / "
         "index-only / cross-group / unknown-channel sets with bounds from {sample stamps, +-1, mid-gap, domain edges, 0, "
         "MAX, inverted, empty}, GC at thresholds {2^-20, 0.2, 0.5, 1} and file caps {210..1200} B, reopen; after every "
-        "operation every channel is read over [0,MAX) and 4-7 ranges from the same alphabet. Non-trivial = a script with "
+        "operation every channel is read over [0,MAX) and 5-9 ranges drawn from the same alphabet and from the neighbourhood of the delete bounds. Non-trivial = a script with "
         ">=1 delete that splits a domain and >=1 GC that rewrote a file; distinct by hash.")
 TRUSTED = ["hook cesium/export_verif_c04.go (VerifGC = the private garbageCollect pass, synchronous)",
            "harness drives the public cesium API on an in-memory FS and decodes the persisted index.domain records",
